@@ -541,6 +541,83 @@ class _CompareSwap(ast.NodeTransformer):
         return node
 
 
+class _CompToLoop(ast.NodeTransformer):
+    """`x = [f(i) for i in it]` (a statement of its own, one generator, no filter) becomes the accumulate loop
+    `x = []; for i in it: x.append(f(i))`"""
+
+    def visit_FunctionDef(self, node):
+        self.generic_visit(node)
+        node.body = self._block(node.body, {n.id for n in ast.walk(node) if isinstance(n, ast.Name)})
+        return node
+
+    def _block(self, stmts, names):
+        out = []
+        for st in stmts:
+            for f in ("body", "orelse", "finalbody"):
+                if isinstance(getattr(st, f, None), list) and not isinstance(st, (ast.FunctionDef, ast.ClassDef, ast.AsyncFunctionDef)):
+                    setattr(st, f, self._block(getattr(st, f), names))
+            if isinstance(st, ast.Try):
+                for h in st.handlers:
+                    h.body = self._block(h.body, names)
+            v = getattr(st, "value", None)
+            if isinstance(st, ast.Assign) and len(st.targets) == 1 and isinstance(st.targets[0], ast.Name) and \
+                    isinstance(v, ast.ListComp) and len(v.generators) == 1 and not v.generators[0].ifs and \
+                    not v.generators[0].is_async and isinstance(v.generators[0].target, ast.Name) and \
+                    v.generators[0].target.id not in (names - {v.generators[0].target.id}) | {st.targets[0].id} and \
+                    st.targets[0].id not in {n.id for n in ast.walk(v) if isinstance(n, ast.Name)} and \
+                    sum(1 for n in ast.walk(v) if isinstance(n, (ast.ListComp, ast.GeneratorExp, ast.Lambda, ast.DictComp, ast.SetComp))) == 1:
+                g = v.generators[0]
+                name = st.targets[0].id
+                out.append(ast.Assign(targets=[ast.Name(name, ast.Store())], value=ast.List([], ast.Load())))
+                out.append(ast.For(target=g.target, iter=g.iter, orelse=[], body=[ast.Expr(ast.Call(
+                    func=ast.Attribute(ast.Name(name, ast.Load()), "append", ast.Load()), args=[v.elt], keywords=[]))]))
+            else:
+                out.append(st)
+        return out
+
+
+class _IsinstanceSplit(ast.NodeTransformer):
+    """`isinstance(x, (A, B))` is written `isinstance(x, A) or isinstance(x, B)` (x a plain name or attribute chain)"""
+
+    def visit_Call(self, node):
+        self.generic_visit(node)
+        if isinstance(node.func, ast.Name) and node.func.id == "isinstance" and len(node.args) == 2 and not node.keywords and \
+                isinstance(node.args[1], ast.Tuple) and 2 <= len(node.args[1].elts) <= 4 and \
+                not any(isinstance(n, (ast.Call, ast.Subscript)) for n in ast.walk(node.args[0])):
+            import copy as _c
+            return ast.copy_location(ast.BoolOp(op=ast.Or(), values=[
+                ast.Call(func=ast.Name("isinstance", ast.Load()), args=[_c.deepcopy(node.args[0]), t], keywords=[])
+                for t in node.args[1].elts]), node)
+        return node
+
+
+class _ChainSplit(ast.NodeTransformer):
+    """`a <= x <= b` is written `a <= x and x <= b` (x without calls)"""
+
+    def visit_Compare(self, node):
+        self.generic_visit(node)
+        if len(node.ops) == 2 and not any(isinstance(n, (ast.Call, ast.NamedExpr)) for n in ast.walk(node.comparators[0])):
+            import copy as _c
+            return ast.copy_location(ast.BoolOp(op=ast.And(), values=[
+                ast.Compare(left=node.left, ops=[node.ops[0]], comparators=[node.comparators[0]]),
+                ast.Compare(left=_c.deepcopy(node.comparators[0]), ops=[node.ops[1]], comparators=[node.comparators[1]])]), node)
+        return node
+
+
+class _DictCall(ast.NodeTransformer):
+    """a dict display whose keys are identifier strings is written as a `dict(key=value, ...)` call"""
+
+    def visit_Dict(self, node):
+        self.generic_visit(node)
+        import keyword
+        if node.keys and all(isinstance(k, ast.Constant) and isinstance(k.value, str) and k.value.isidentifier()
+                             and not keyword.iskeyword(k.value) for k in node.keys) and \
+                len({k.value for k in node.keys}) == len(node.keys):
+            return ast.copy_location(ast.Call(func=ast.Name("dict", ast.Load()), args=[],
+                                              keywords=[ast.keyword(arg=k.value, value=v) for k, v in zip(node.keys, node.values)]), node)
+        return node
+
+
 def _apply(cls):
     def run(repo_root):
         out = {}
@@ -557,10 +634,13 @@ def _apply(cls):
 
 # the rewrites every check must survive (a failure fails the thorough tier)
 GATED = {"unnest-else", "nest-else", "split-guards", "reverse-keywords", "hoist-arguments", "annotate", "log-entry", "extract-constants", "positional-ctor-args",
-         "edit-docstrings", "reword-messages", "result-temporary", "alias-self-attributes", "swap-comparisons"}
+         "edit-docstrings", "reword-messages", "result-temporary", "alias-self-attributes", "swap-comparisons",
+         "comprehension-to-loop", "split-isinstance", "split-chained-comparisons"}
 EXTRA.update({"unnest-else": _apply(_ElseUnnester), "nest-else": _apply(_ElseNester), "split-guards": _apply(_GuardSplitter),
               "reverse-keywords": _apply(_KwReverser), "hoist-arguments": _apply(_ArgHoister),
               "annotate": _apply(_Annotator), "log-entry": _apply(_EntryLogger), "extract-constants": _apply(_ConstExtractor), "positional-ctor-args": _apply(_KwToPositional),
               "edit-docstrings": _apply(_DocstringEditor), "reword-messages": _apply(_MessageEditor),
               "result-temporary": _apply(_ResultTemporary), "alias-self-attributes": _apply(_SelfAttrAlias),
-              "swap-comparisons": _apply(_CompareSwap)})
+              "swap-comparisons": _apply(_CompareSwap), "comprehension-to-loop": _apply(_CompToLoop),
+              "split-isinstance": _apply(_IsinstanceSplit), "split-chained-comparisons": _apply(_ChainSplit),
+              "dict-call": _apply(_DictCall)})
